@@ -313,6 +313,37 @@ def chain_f1(*args, **kwargs): return chain_h(*args, **kwargs)
 def chain_f2(*args, **kwargs): return chain_f1(*args, **kwargs)
 def chain_f3(*args, **kwargs): return chain_f2(*args, **kwargs)
 deep_stack_over_chain = deco_o2(deco_o1(deco_o0(chain_f3)))
+# reported by fifth-round sub-agents
+class BoolRaises:
+    def __bool__(self): raise ValueError('no truth value')
+    def __call__(self, fn: int) -> int: return fn
+bool_raises_instance = BoolRaises()
+class RowsRaise:
+    @property
+    def rows(self): return iter_raises()
+    def all_rows(self, **kw): return two_params(*self.rows, **kw)
+def iter_raises():
+    raise RuntimeError('not connected')
+    yield
+rows_raise_bound = RowsRaise().all_rows
+class SigRaisesRuntime:
+    @property
+    def __signature__(self): raise RuntimeError('lazy proxy not ready')
+    def __call__(self, a): return a
+sig_raises_runtime = SigRaisesRuntime()
+def fwd_to_sig_raises(*a, **k): return sig_raises_runtime(*a, **k)
+class AnswersNone:
+    def __getattr__(self, name):
+        if name.startswith('__'): raise AttributeError(name)
+        return None
+    def __call__(self, a, b=1): return a
+answers_none_instance = AnswersNone()
+class AnswersName(AnswersNone):
+    def __getattr__(self, name):
+        if name.startswith('__'): raise AttributeError(name)
+        return name
+answers_name_instance = AnswersName()
+exec("def long_expression(*args, **kwargs): return " + " + ".join(["1"] * 700) + " + target(*args, **kwargs)")
 class FalsyCallable:
     def __len__(self): return 0
     def __call__(self, a: int, b: str = 's') -> bool: return True
